@@ -23,7 +23,8 @@ Content == {"out-addr", "out-split", "fee-shift", "arb", "claim", "contract", "r
             "renewal-new", "attest-value", "fnd-addr", "uncovered-out"}
 Witness == {"sig-flip", "sig-drop", "sig-extra", "sig-swap", "pre-wrong", "pre-extra", "pre-drop"}
 Keys    == {"other-policy", "other-key", "proposed-keys", "renew-other-keys", "renew-stale-keys", "attest-other-key",
-            "fnd-unauthorised", "contract-sig-flip", "renewal-sig-flip", "attest-sig-flip", "timelocked-policy"}
+            "fnd-unauthorised", "contract-sig-flip", "renewal-sig-flip", "attest-sig-flip", "timelocked-policy",
+            "relabel-parent", "stale-keys"}
 Tampers == Content \cup Witness \cup Keys
 
 \* ---- shapes ---------------------------------------------------------------------
@@ -40,7 +41,12 @@ Shapes == [
   v1sf       |-> Shape({"claim", "out-addr", "arb"}, {"claim", "out-addr", "arb"}, {"sig"}, FALSE, {"other-policy", "other-key"}),
   v1revision |-> Shape({"revision", "arb"}, {"revision", "arb"}, {"sig"}, FALSE, {"other-policy", "other-key"}),
   v1foundation |-> Shape({"fnd-addr", "out-addr"}, {"fnd-addr", "out-addr"}, {"sig"}, FALSE, {"fnd-unauthorised", "other-key"}),
-  v2pk       |-> Shape(AllPay, AllPay, {"sig"}, FALSE, {"other-policy", "other-key"}),
+  v2pk       |-> Shape(AllPay, AllPay, {"sig"}, FALSE, {"other-policy", "other-key", "relabel-parent"}),
+  \* an output created earlier in the same block (no accumulator proof): the claimed parent must still be the real one
+  v2ephemeral |-> Shape(AllPay, AllPay, {"sig"}, FALSE, {"other-policy", "other-key", "relabel-parent"}),
+  \* two revisions of one contract in one block, the first handing it to a new renter key: the second must be signed
+  \* by the keys of the contract as it then stands
+  v2rev2     |-> Shape({"revision"}, {"revision"}, {}, FALSE, {"stale-keys", "contract-sig-flip"}),
   v2uc       |-> Shape(AllPay, AllPay, {"sig"}, FALSE, {"other-policy", "other-key"}),
   v2thresh   |-> Shape(AllPay, AllPay, {"sig", "sig2"}, FALSE, {"other-policy", "other-key"}),
   v2hash     |-> Shape(AllPay, AllPay, {"sig", "pre"}, FALSE, {"other-policy", "other-key"}),
